@@ -706,7 +706,7 @@ SAME_OBJECT_FUNCS = {'as_encoded_array', 'as_string_array'}            # return 
 WRAP_CTORS = {'EncodedArray', 'EncodedRaggedArray', 'RaggedArray', 'StringArray'}
 FRESH_ATTRS = {'shape', 'size', 'dtype', 'ndim', 'encoding', 'lengths', 'starts', 'ends', 'n_rows', '__class__', 'flags',
                'DELIMITER', 'COMMENT', 'n_fields', 'dataclass'}
-MAX_DEPTH = 5
+MAX_DEPTH = 8
 
 
 class Extractor:
@@ -721,6 +721,7 @@ class Extractor:
         self.branch_born = 0                 # first register created inside the outermost enclosing branch
         self.fresh = set()                   # registers holding newly allocated values
         self.visited = set()                 # (module, qualname) of every function whose body was analysed
+        self.stack = []                      # functions being inlined (a recursive call is not inlined again)
 
     # ---- emit
     def alloc(self):
@@ -824,7 +825,16 @@ class Scope:
         if isinstance(n, ast.Name):
             v = self.env.get(n.id)
             return v if isinstance(v, int) else None
-        if isinstance(n, (ast.Compare, ast.BinOp, ast.UnaryOp, ast.BoolOp)):
+        if isinstance(n, ast.BoolOp) or (isinstance(n, ast.UnaryOp) and isinstance(n.op, ast.Not)):
+            # Python's `a or b` / `a and b` evaluate to ONE OF THEIR OPERANDS (`self._set_values or {}` is the
+            # argument's own dict whenever it is non-empty): an alias of every operand, never a new value
+            vals = n.values if isinstance(n, ast.BoolOp) else [n.operand]
+            rs = [self.ev(v) for v in vals]
+            if isinstance(n, ast.UnaryOp):
+                return None
+            rs = [r if r is not None else ex.alloc() for r in rs]
+            return ex.pick(rs)
+        if isinstance(n, (ast.Compare, ast.BinOp, ast.UnaryOp)):
             for c in ast.iter_child_nodes(n):
                 if isinstance(c, ast.expr):
                     self.ev(c)
@@ -1314,7 +1324,24 @@ def inline(ex, fn, pos, kw, depth, cls):
     node = _fn_ast(fn)
     if not isinstance(node, ast.FunctionDef):
         return ex.view(False, [r for r in pos if r is not None])
-    ex.visited.add((fn.__module__, fn.__qualname__.replace('<locals>.', '')))
+    key = (fn.__module__, fn.__qualname__.replace('<locals>.', ''))
+    if key in ex.stack:
+        # recursion (str_to_int -> per-row re-parse -> str_to_int): fail closed like an unclassified call
+        ex.unknown.append('recursive ' + key[1])
+        regs = [r for r in list(pos) + list(kw.values()) if isinstance(r, int)]
+        for r in regs:
+            ex.write(r)
+        return ex.view(False, regs) if regs else ex.alloc()
+    ex.visited.add(key)
+    ex.stack.append(key)
+    try:
+        return _inline_body(ex, fn, node, pos, kw, depth, cls)
+    finally:
+        ex.stack.pop()
+
+
+def _inline_body(ex, fn, node, pos, kw, depth, cls):
+    import sys
     module = sys.modules[fn.__module__]
     if cls is None and '.' in fn.__qualname__:
         c = getattr(module, fn.__qualname__.split('.')[0], None)
@@ -1475,6 +1502,7 @@ def _inline_with_funcs(ex, fn, pos, kwf, cls):
     import sys
     node = _fn_ast(fn)
     ex.visited.add((fn.__module__, fn.__qualname__.replace('<locals>.', '')))
+    ex.stack.append((fn.__module__, fn.__qualname__.replace('<locals>.', '')))
     module = sys.modules[fn.__module__]
     if cls is None and '.' in fn.__qualname__ and '<locals>' not in fn.__qualname__:
         c = getattr(module, fn.__qualname__.split('.')[0], None)
@@ -1486,7 +1514,10 @@ def _inline_with_funcs(ex, fn, pos, kwf, cls):
             sc.env[nm] = kwf[nm]
         elif i < len(pos) and pos[i] is not None:
             sc.env[nm] = pos[i]
-    sc.block(node.body)
+    try:
+        sc.block(node.body)
+    finally:
+        ex.stack.pop()
     return ex.pick(sc.returns)
 
 
@@ -1781,6 +1812,7 @@ def generate(tier, seed):
                 name, data, bt = gen_file(fmt, rng, rng.choice([1, 2, 4]) if rep else 3)
                 ops = all_ops if rep == 0 else rng.sample(all_ops, rng.randint(1, 4))
                 cases.append(dict(kind='chunk', fmt=fmt, name=name, file=data.hex(), bt=bt, lazy=lazy, ops=ops))
+    cases += gen_chain_cases(rng, tier)
     return cases
 
 
@@ -1791,6 +1823,8 @@ def observe(case):
         return _observe_call(case)
     if k == 'chunk':
         return _observe_chunk(case)
+    if k == 'chain':
+        return _observe_chain(case)
     if k == 'site':
         return extract_site(case['sid'])
     if k == 'probe':
@@ -1835,6 +1869,12 @@ def to_coq(case, o):
             return _case_term(1, before=['00'], after=['ff'])          # could not be read: never accepted
         return _case_term(1, before=o['before'], after=o['after'], r1=_digest(o['res1']), r2=_digest(o['res2']),
                           wr=bytes.fromhex(o['write_b']), wg=bytes.fromhex(o['write_a']))
+    if k == 'chain':
+        if 'error' in o:
+            return _case_term(1, before=['00'], after=['ff'])
+        return _case_term(1, before=o['before'], after=o['after'], lb=_digest(o['log_before']), la=_digest(o['log_after']),
+                          r1=_digest(o['res1']), r2=_digest(o['res2']),
+                          wr=bytes.fromhex(o['write_b']), wg=bytes.fromhex(o['write_a']))
     if k == 'site':
         known = all(p in PROBE_NAMES for p in o['probes'])
         prog = [tuple(i) if not isinstance(i, tuple) else i for i in o['prog']]
@@ -1852,6 +1892,8 @@ def nontrivial(case, o):
         return 'error' not in o and any(len(b) > 0 for b in o['before'])
     if k == 'chunk':
         return 'error' not in o and o.get('n', 0) >= 1
+    if k == 'chain':
+        return 'error' not in o and 'fn_error' not in o and o.get('n', 0) >= 1
     if k == 'site':
         return any(i[0] == 'W' for i in o['prog'])
     return True
@@ -1865,6 +1907,9 @@ def describe(case, o):
     if k == 'chunk':
         return dict(kind=k, fmt=case['fmt'], lazy=case['lazy'], ops=case['ops'], n=o.get('n'), is_lazy=o.get('lazy'),
                     op_errors=o.get('op_errors'), file=bytes.fromhex(case['file']).decode('latin1')[:300])
+    if k == 'chain':
+        return dict(kind=k, fmt=case['fmt'], prep=case['prep'], fn=case['fn'], n=o.get('n'), is_lazy=o.get('lazy'),
+                    fn_error=o.get('fn_error'), error=o.get('error'))
     if k == 'site':
         return dict(kind=k, site=SITES[case['sid']]['name'], n_instr=len(o['prog']), safe=abstract_run(o['np'], [tuple(i) for i in o['prog']])[0],
                     unknown=o['unknown'], probes=o['probes'])
@@ -1889,6 +1934,14 @@ def distribution(cases, obs):
             key = '%s/%s' % (c['fmt'], 'lazy' if o.get('lazy') else 'eager')
             d['formats'][key] = d['formats'].get(key, 0) + 1
             d['chunk_op_errors'] += len(o.get('op_errors', []))
+        elif k == 'chain':
+            d.setdefault('chains', {})
+            key = '%s/%s' % (c['prep'], c['fn'])
+            d['chains'][key] = d['chains'].get(key, 0) + 1
+            if 'fn_error' in o or 'error' in o:
+                d.setdefault('chain_errors', {})
+                e = '%s %s: %s' % (c['fmt'], c['fn'], (o.get('fn_error') or o.get('error')).split(':')[0])
+                d['chain_errors'][e] = d['chain_errors'].get(e, 0) + 1
         elif k == 'site':
             if abstract_run(o['np'], [tuple(i) for i in o['prog']])[0]:
                 d['sites_safe'] += 1
@@ -1921,6 +1974,8 @@ def signature(case, o):
         return 'call:' + case['fn']
     if case['kind'] == 'chunk':
         return 'chunk:' + case['fmt']
+    if case['kind'] == 'chain':
+        return 'chain:%s:%s' % (case['prep'], case['fn'])
     if case['kind'] == 'site':
         return 'site:%d' % case['sid']
     return 'probe'
@@ -1936,6 +1991,13 @@ def explain(case, o):
                     written_by_inspected_chunk=bytes.fromhex(o.get('write_a', '')).decode('latin1')[:400],
                     written_by_untouched_twin=bytes.fromhex(o.get('write_b', '')).decode('latin1')[:400],
                     reparse_differs=o.get('res1') != o.get('res2'), op_errors=o.get('op_errors'))
+    if case['kind'] == 'chain':
+        ch = [p for p, b, a in zip(o.get('paths', []), o.get('before', []), o.get('after', [])) if a != b]
+        return dict(what='T = %s(lazily read %s chunk); %s(T) twice' % (case['prep'], case['fmt'], case['fn']),
+                    changed_buffers=ch, logical_content_of_T_changed=o.get('log_before') != o.get('log_after'),
+                    T_writes_before=bytes.fromhex(o.get('write_b', '')).decode('latin1')[:400],
+                    T_writes_after=bytes.fromhex(o.get('write_a', '')).decode('latin1')[:400],
+                    results_differ=o.get('res1') != o.get('res2'), fn_error=o.get('fn_error'), error=o.get('error'))
     if case['kind'] == 'site':
         prog = [tuple(i) for i in o['prog']]
         ok, at = abstract_run(o['np'], prog)
@@ -2117,3 +2179,190 @@ def walker_gaps():
             if not any(np.shares_memory(a, r) for r in roots):
                 missed.append('%s: %s%s not reached' % (label, a.dtype, a.shape))
     return missed
+
+
+# =============================================================================================== two-step chains
+# The argument of the second call is itself the RESULT of an earlier public operation on a lazily read chunk, so it
+# carries hidden state (user-set columns, cached fields, a non-contiguous extractor, ...).  That result T is
+# snapshotted (reachable buffers by reference, logical content, the bytes it writes), handed twice to a function,
+# and compared.
+CHAIN_PREPS = ['none', 'replace', 'replace2', 'setattr', 'access', 'index', 'mask', 'write', 'data_object', 'replace_index']
+
+
+def _int_fields(T):
+    import dataclasses
+    return [f.name for f in dataclasses.fields(T) if f.type is int]
+
+
+def _chain_prep(chunk, prep, write):
+    import numpy as np
+    import bionumpy as bnp
+    ints = _int_fields(chunk)
+    if prep == 'none':
+        return chunk
+    if prep in ('replace', 'replace2', 'replace_index'):
+        if ints:
+            T = bnp.replace(chunk, **{ints[0]: getattr(chunk, ints[0]) + 1})
+        else:
+            T = bnp.replace(chunk, name=chunk.name)
+        if prep == 'replace2' and len(ints) > 1:
+            T = bnp.replace(T, **{ints[1]: getattr(T, ints[1]) + 2})
+        if prep == 'replace_index':
+            T = T[::-1]
+        return T
+    if prep == 'setattr':
+        T = chunk[np.arange(len(chunk))]
+        if ints:
+            setattr(T, ints[0], getattr(T, ints[0]) + 3)       # explicit assignment, BEFORE the snapshot
+        else:
+            T.name = T.name
+        return T
+    if prep == 'access':
+        import dataclasses
+        for f in dataclasses.fields(chunk):
+            getattr(chunk, f.name)
+        return chunk
+    if prep == 'index':
+        return chunk[::2]
+    if prep == 'mask':
+        return chunk[np.arange(len(chunk)) % 3 != 1]
+    if prep == 'write':
+        write(chunk, 'prep')
+        return chunk
+    if prep == 'data_object':
+        return chunk.get_data_object() if hasattr(chunk, 'get_data_object') else chunk
+    raise ValueError(prep)
+
+
+def chain_functions():
+    """name -> (applicable(field names), call(T)): every registered function that takes a table."""
+    import numpy as np
+    import bionumpy as bnp
+    from bionumpy import arithmetics as ar
+    from bionumpy import sequence as sq
+    from bionumpy.datatypes import Interval
+    iv = lambda fs: {'chromosome', 'start', 'stop'} <= set(fs)
+    seq = lambda fs: 'sequence' in fs
+    anyt = lambda fs: True
+    sizes = {'chr1': 10 ** 7, 'chr2': 10 ** 7, 'chrX': 10 ** 7}
+    F = {}
+    F['replace_first'] = (lambda fs: True, lambda T: bnp.replace(T, **{(_int_fields(T) or ['name'])[0]: getattr(T, (_int_fields(T) or ['name'])[0])}))
+    F['replace_stop'] = (iv, lambda T: bnp.replace(T, stop=T.stop + 1000))
+    F['replace_name'] = (lambda fs: 'name' in fs, lambda T: bnp.replace(T, name=T.name))
+    F['reverse_complement'] = (seq, lambda T: sq.get_reverse_complement(T))
+    F['translate'] = (seq, lambda T: sq.translate_dna_to_protein(T))
+    F['kmers'] = (seq, lambda T: sq.get_kmers(bnp.as_encoded_array(T.sequence, bnp.DNAEncoding), 2))
+    F['sort_intervals'] = (iv, lambda T: ar.sort_intervals(T))
+    F['merge_intervals'] = (iv, lambda T: ar.merge_intervals(T[T.chromosome == T.chromosome[0]] if len(T) else T, distance=2))
+    F['count_overlap'] = (iv, lambda T: ar.count_overlap(T, T))
+    F['intersect'] = (iv, lambda T: ar.intersect(T, T))
+    F['unique_intersect'] = (iv, lambda T: ar.unique_intersect(T, T, 10 ** 8))
+    F['genome_intervals'] = (iv, lambda T: [bnp.Genome.from_dict(sizes).get_intervals(T).get_location('stop'),
+                                            bnp.Genome.from_dict(sizes).get_intervals(T).sorted().get_data()])
+    F['astype_interval'] = (iv, lambda T: T.astype(Interval))
+    F['index'] = (anyt, lambda T: [T[::-1], T[np.arange(len(T)) % 2 == 0], T[[0] * min(1, len(T))]])
+    F['concat'] = (anyt, lambda T: np.concatenate([T, T]))
+    F['tolist'] = (anyt, lambda T: [repr(e) for e in T.tolist()])
+    F['todict'] = (anyt, lambda T: T.todict())
+    F['fields'] = (anyt, lambda T: [getattr(T, f) for f in _field_names(T)])
+    F['data_object'] = (anyt, lambda T: T.get_data_object() if hasattr(T, 'get_data_object') else T)
+    F['replace_last'] = (lambda fs: True, lambda T: bnp.replace(T, **{_field_names(T)[-1]: getattr(T, _field_names(T)[-1])}))
+    F['write'] = (anyt, None)         # filled per case (needs the case's writer)
+    return F
+
+
+
+def _field_names(T):
+    import dataclasses
+    return [f.name for f in dataclasses.fields(T)]
+
+
+CHAIN_FUNCTIONS = ['replace_first', 'replace_last', 'replace_stop', 'replace_name', 'reverse_complement', 'translate', 'kmers',
+                   'sort_intervals', 'merge_intervals', 'count_overlap', 'intersect', 'unique_intersect', 'genome_intervals',
+                   'astype_interval', 'index', 'concat', 'tolist', 'todict', 'fields', 'data_object', 'write']
+CHAIN_FORMATS = ['bed', 'bed6', 'bed12', 'narrowPeak', 'bdg', 'vcf', 'sam', 'fastq', 'fastq3', 'fa2', 'gfa', 'sizes']
+
+
+def chain_applicable(fmt, fn):
+    iv = fmt in ('bed', 'bed6', 'bed12', 'narrowPeak', 'bdg')
+    seq = fmt in ('fastq', 'fastq3', 'fa2', 'gfa', 'sam')
+    if fn in ('replace_stop', 'sort_intervals', 'merge_intervals', 'count_overlap', 'intersect', 'unique_intersect',
+              'genome_intervals', 'astype_interval'):
+        return iv
+    if fn in ('reverse_complement', 'kmers'):
+        return fmt in ('fastq', 'fastq3', 'fa2', 'gfa')
+    if fn == 'translate':
+        return fmt == 'fastq3'
+    if fn == 'replace_name':
+        return fmt in ('bed6', 'bed12', 'narrowPeak', 'fastq', 'fastq3', 'fa2', 'gfa', 'sam')
+    return True
+
+
+def _observe_chain(case):
+    import numpy as np
+    import bionumpy as bnp
+    from bionumpy.bnpdataclass.lazybnpdataclass import LazyBNPDataClass
+    d = tempfile.mkdtemp(prefix='c20_')
+    try:
+        p = os.path.join(d, case['name'])
+        open(p, 'wb').write(bytes.fromhex(case['file']))
+        bt = _buffer_type(case['bt'])
+        kw = dict(buffer_type=bt) if bt is not None else {}
+
+        def write(t, tag):
+            q = os.path.join(d, tag + '_' + case['name'])
+            try:
+                with bnp.open(q, 'w', **kw) as f:
+                    f.write(t)
+                return open(q, 'rb').read().hex()
+            except Exception as e:
+                return ('error:' + type(e).__name__).encode().hex()
+        try:
+            f = bnp.open(p, lazy=True, **kw)
+            chunk = f.read_chunk()
+            f.close()
+            T = _chain_prep(chunk, case['prep'], write)
+        except Exception as e:
+            return dict(error='prep: %s: %s' % (type(e).__name__, str(e)[:200]))
+        F = chain_functions()
+        fn = (lambda t: write(t, 'fn')) if case['fn'] == 'write' else F[case['fn']][1]
+        out = dict(lazy=isinstance(T, LazyBNPDataClass), n=len(T))
+        out['write_b'] = write(T, 'before')                    # the bytes T writes, before
+        snap = mem_snapshot((T, chunk))
+        out['paths'] = [p_ for _, p_, _ in snap]
+        out['before'] = [b.hex() for _, _, b in snap]
+        out['log_before'] = _flat(logical(T)).hex()
+        res = []
+        for _ in range(2):
+            try:
+                res.append(_flat(['ok', logical(fn(T))]).hex())
+            except Exception as e:
+                res.append(_flat(['error', type(e).__name__]).hex())
+                out.setdefault('fn_error', '%s: %s' % (type(e).__name__, str(e)[:160]))
+        out['res1'], out['res2'] = res
+        out['after'] = [r.tobytes().hex() for r, _, _ in snap]
+        out['log_after'] = _flat(logical(T)).hex()
+        out['write_a'] = write(T, 'after')
+        return out
+    finally:
+        shutil.rmtree(d, ignore_errors=True)
+
+
+def gen_chain_cases(rng, tier):
+    cases = []
+    per = 3 if tier == 'quick' else 8
+    for fmt in CHAIN_FORMATS:
+        fns = [f for f in CHAIN_FUNCTIONS if chain_applicable(fmt, f)]
+        for prep in CHAIN_PREPS:
+            chosen = ['replace_last'] + rng.sample([f for f in fns if f != 'replace_last'], min(per, len(fns) - 1))
+            for fn in chosen:
+                if fmt == 'fastq3':
+                    L = []
+                    for i in range(rng.choice([2, 3, 5])):
+                        l = 3 * rng.randint(1, 5)
+                        L += ['@r%d' % i, ''.join(rng.choice('ACGT') for _ in range(l)), '+', ''.join(rng.choice('!#5I') for _ in range(l))]
+                    name, data, bt = 'x.fastq', ('\n'.join(L) + '\n').encode(), None
+                else:
+                    name, data, bt = gen_file(fmt, rng, rng.choice([2, 3, 5]))
+                cases.append(dict(kind='chain', fmt=fmt, name=name, file=data.hex(), bt=bt, prep=prep, fn=fn))
+    return cases
